@@ -887,6 +887,53 @@ def driver(ctx, cfg, refs, rnd, nhist, nsteps):
     return events
 
 
+def canon_doc(obj):
+    """A dictionary of lists of permutations as the rows [k, perms] in key order (Trace_C20 part 3); anything that is
+    not such a dictionary becomes a row no written document has."""
+    try:
+        return [{"k": int(k), "perms": [[int(x) for x in p] for p in obj[k]]} for k in sorted(obj, key=int)]
+    except (ValueError, TypeError, AttributeError):
+        return [{"k": -1, "perms": [[-1]]}]
+
+
+def doc_events(ctx, rnd, quick):
+    """write_json_to_file / read_bisc_file on documents outside the data sets of the model: permutations of lengths
+    10 to 16 (two-digit entries), sparse and unordered keys, empty lists, rewritten several times under 3 names."""
+    work = tempfile.mkdtemp(prefix="c20-docs-", dir=ctx.scratch)
+    here = os.getcwd()
+    events = []
+
+    def rand_doc():
+        keys = rnd.sample([0, 1, 2, 3, 4, 9, 10, 11, 12, 13, 16], rnd.randint(1, 5))
+        if rnd.random() < 0.5:
+            keys.sort()
+        return {k: [list(util.rand_perm(rnd, k)) for _ in range(rnd.randint(0, 3))] for k in keys}
+
+    try:
+        os.chdir(work)
+        stems = ["x_good_len12", "x_bad_len12", "y_good_len16"]
+        written = set()
+        for _ in range(30 if quick else 300):
+            f = rnd.choice(stems)
+            if f not in written or rnd.random() < 0.45:
+                doc = rand_doc()
+                with contextlib.redirect_stdout(io.StringIO()):
+                    st, got = util.call(bisc_mod.write_json_to_file, doc, f + ".json")
+                if st != "ok":
+                    ctx.violation({"kind": "documents", "call": "write_json_to_file", "doc": canon_doc(doc)}, "NoException", "the call returns", str(got)[:120])
+                    break
+                written.add(f)
+                events.append({"op": "WriteDoc", "f": f, "doc": canon_doc(doc)})
+            else:
+                with contextlib.redirect_stdout(io.StringIO()):
+                    st, got = util.call(bisc_mod.read_bisc_file, f)
+                events.append({"op": "ReadDoc", "f": f, "res": canon_doc(got) if st == "ok" else [{"k": -2, "perms": [[-2]]}]})
+    finally:
+        os.chdir(here)
+        shutil.rmtree(work, ignore_errors=True)
+    return events
+
+
 def trace_job(cfg, events, holder):
     fd, path = tempfile.mkstemp(prefix="verif-trace-", suffix=".json")
     with os.fdopen(fd, "w") as fh:
@@ -1123,6 +1170,7 @@ def _run(ctx):
     # the real code first (cheap): random histories and the scan of the shipped files
     tcfg = trace_cfg(quick)
     events = driver(ctx, tcfg, refs, rnd, 6 if quick else 40, 60 if quick else 120)
+    events += doc_events(ctx, util.rng(ctx, 2011), quick)
     lap("random histories on the real code")
     cold_starts(ctx, refs, rnd, quick)
     lap("cold starts")
@@ -1188,6 +1236,10 @@ def _run(ctx):
     ctx.case(n=len(events))
     for b in v["verdict"]:
         ev = events[b["i"] - 1]
+        if ev["op"] in ("WriteDoc", "ReadDoc"):
+            hist = [e for e in events[:b["i"]] if e["op"] in ("WriteDoc", "ReadDoc") and e["f"] == ev["f"]]
+            ctx.violation({"kind": "documents", "events": hist[-6:]}, b["clause"], "the document last written to " + ev["f"], ev.get("res"))
+            continue
         start = max(i for i in range(b["i"]) if events[i]["op"] == "Reset")
         hist = [{kk: vv for kk, vv in e.items() if kk != "proj"} for e in events[start:b["i"]]]
         ctx.violation({"kind": "history", "init": events[start]["init"], "events": hist[-40:]}, b["clause"], "the reply of the model (see clause)", ev.get("res"))
